@@ -2,6 +2,7 @@ import P9Model.Conc.RWMutex
 import P9Model.Conc.Guards
 import P9Model.Lemmas.Lock.Contract
 import P9Model.Lemmas.Lock.OpenOnce
+import P9Model.Lemmas.Lock.NameLookup
 /-!
 # C07 — Backend concurrency contract of the File interface (path-tree locking)
 -/
@@ -18,6 +19,11 @@ theorem guards_meet_contract : Locks.guardsMeetContract = true := Locks.contract
 /-- O2 (**Open at most once**): `Open` is only reached inside the per-reference critical section
 that also tests and sets `opened` (the D8 `fix:`). -/
 theorem open_inside_opened_section : Locks.openOnceOk = true := Locks.open_once_fact
+
+/-- O (regenerated): the child node an unlink (or a create, or a walk step) locks is the node the name
+denotes *then*: names are resolved to path nodes only under the rename lock and the directory's own
+lock (`Locks.nameLookupsUnderPathLocks`). -/
+theorem names_resolved_under_the_path_locks : Locks.nameLookupsUnderPathLocks = true := Locks.name_lookup_fact
 
 /-- **The contract, from the guards**: write-class calls on a path exclude each other and every
 read-class call on that path; UnlinkAt also excludes every call on the entry being removed;
